@@ -23,7 +23,7 @@ MODE_FLAGS = {
     'F': ['-O1', '-fno-vectorize', '-fno-slp-vectorize', '-fno-unroll-loops'],
     'Fi': ['-O1', '-fno-vectorize', '-fno-slp-vectorize', '-fno-unroll-loops', '-mllvm', '-inline-threshold=100000'],
 }
-CBMC_BASE = ['--unwinding-assertions', '--pointer-overflow-check', '--undefined-shift-check',
+CBMC_BASE = ['--unwinding-assertions', '--undefined-shift-check',
              '--drop-unused-functions', '--no-malloc-may-fail', '--no-standard-checks',
              '--bounds-check', '--pointer-check', '--div-by-zero-check', '--pointer-primitive-check']
 
@@ -33,7 +33,7 @@ _lock = threading.Lock()
 class Query:
     def __init__(self, name, harness, entry, defs=None, mode='F', bounds=None, default_unwind=2,
                  backend='sat', timeout=300, mem_gb=12, stubs=None, kf_only=None, kf_excl=(),
-                 cflags=(), extra_cbmc=(), note='', replay='direct', leak=False, functions=()):
+                 cflags=(), extra_cbmc=(), note='', replay='direct', leak=False, functions=(), rec_bounds=None, default_rec=2, ptrovf=False):
         self.name = name; self.harness = harness; self.entry = entry
         self.defs = dict(defs or {}); self.mode = mode
         self.bounds = dict(bounds or {})        # regex over "<SourceFunction>" or "<cfunc>" -> unwind bound
@@ -44,6 +44,8 @@ class Query:
         self.cflags = tuple(cflags); self.extra_cbmc = tuple(extra_cbmc)
         self.note = note; self.replay = replay; self.leak = leak
         self.functions = tuple(functions)
+        self.rec_bounds = dict(rec_bounds or {}); self.default_rec = default_rec
+        self.ptrovf = ptrovf   # --pointer-overflow-check: off by default (optimiser-hoisted GEPs and NULL+0 give false alarms that mask later properties)
 
 
 class Work:
@@ -117,18 +119,19 @@ def translate(work, key, ent, stubs):
         tk = 'c_' + skey
         if tk in ent: return ent[tk]
         cfile = os.path.join(work.dir, '%s_%s.c' % (key, skey))
-        loops = []
+        loops = []; recs = []
         try:
-            text = ll2c.translate(open(ent['ll']).read(), {'stubs': stubs, 'loops_out': loops})
+            text = ll2c.translate(open(ent['ll']).read(), {'stubs': stubs, 'loops_out': loops, 'rec_out': recs})
         except Exception as e:  # translator cannot handle the IR: undecided, never pass/fail
             ent[tk] = (None, None, 'll2c: %s: %s' % (type(e).__name__, e))
             return ent[tk]
         open(cfile, 'w').write(text)
         ent[tk] = (cfile, loops, None)
+        ent['rec_' + skey] = recs
         return ent[tk]
 
 
-def unwindset(work, cfile, entry, loops, q):
+def unwindset(work, cfile, entry, loops, q, recs=None, stubs_c=()):
     """per-loop bounds: cbmc --show-loops (ids + generated-C lines) joined with ll2c's source-function map"""
     rc, out, dt, to = _sh(['cbmc', cfile, '--function', entry, '--show-loops', '-I', Q2C, '--drop-unused-functions'], timeout=120)
     byline = {l.get('cline'): l for l in loops}
@@ -148,6 +151,16 @@ def unwindset(work, cfile, entry, loops, q):
         items.append('%s:%d' % (lid, b))
         desc.append({'loop': lid, 'src': names[0] if info else fn, 'file': info['file'] if info else os.path.basename(f),
                      'line': info['line'] if info else line, 'unwind': b})
+    for rf in (recs or []):
+        if rf['cfunc'] in stubs_c: continue
+        b = None
+        base = (rf['src'] or '').split('<')[0]
+        for pat, bound in q.rec_bounds.items():
+            if re.fullmatch(pat, base) or re.fullmatch(pat, rf['cfunc']):
+                b = bound; break
+        if b is None: b = q.default_rec
+        items.append('%s:%d' % (rf['cfunc'], b))
+        desc.append({'loop': rf['cfunc'] + ' (recursion)', 'src': base, 'file': None, 'line': 0, 'unwind': b})
     return items, desc
 
 
@@ -177,6 +190,7 @@ def classify(prop, desc):
 def run_cbmc(work, q, cfile, entry, items, backend, timeout, trace_prop=None):
     cmd = ['cbmc', cfile, '--function', entry, '-I', Q2C] + CBMC_BASE + BACKENDS[backend] + list(q.extra_cbmc)
     if q.leak: cmd += ['--memory-leak-check']
+    if q.ptrovf: cmd += ['--pointer-overflow-check']
     if items: cmd += ['--unwindset', ','.join(items)]
     cmd += ['--unwind', str(q.default_unwind)]
     if trace_prop == '*':
@@ -327,7 +341,8 @@ def run_query(work, q, kf_open, seed=0, do_selfcheck=True):
     if 'err' in ent: return done('UNDECIDED', ent['err'][-1500:])
     cfile, loops, err = translate(work, key, ent, q.stubs)
     if err: return done('UNDECIDED', err)
-    items, ldesc = unwindset(work, cfile, q.entry, loops, q)
+    skey = hashlib.sha1(repr(sorted(q.stubs.items())).encode()).hexdigest()[:8]
+    items, ldesc = unwindset(work, cfile, q.entry, loops, q, ent.get('rec_' + skey), ())
     r['loops'] = ldesc
     backends = q.backend if isinstance(q.backend, (list, tuple)) else [q.backend]
     attempt = 0
